@@ -1877,6 +1877,25 @@ func (b *Block) setExportedVars() (err error) {
 
 	pos += subBlockIndexBytes
 	b.SBValues = b.data[pos:]
+
+	// Make sure the tables are consistent so decoding cannot index out of range.
+	var valueBytes uint64
+	for _, num := range b.NumSBLabels {
+		if num > SubBlockSize*SubBlockSize*SubBlockSize {
+			return fmt.Errorf("sub-block has %d labels but only %d voxels", num, SubBlockSize*SubBlockSize*SubBlockSize)
+		}
+		if num > 1 {
+			valueBytes += uint64(bitsFor(num)) * (SubBlockSize * SubBlockSize * SubBlockSize / 8)
+		}
+	}
+	if uint64(len(b.SBValues)) < valueBytes {
+		return fmt.Errorf("block has %d bytes of sub-block values but its label counts need %d", len(b.SBValues), valueBytes)
+	}
+	for _, index := range b.SBIndices {
+		if index >= numLabels {
+			return fmt.Errorf("sub-block index %d is outside the block's %d labels", index, numLabels)
+		}
+	}
 	return
 }
 
